@@ -107,8 +107,20 @@ struct NBlk
 
 static const char FULL[12] = {'a', 'b', ' ', ',', '\t', '\n', '\r', '"', '\'', '/', '.', '\0'};
 
+// (the text_long target: lengths around 256 / 512 / 1000 whatever the routine's usual maximum)
+static bool g_long = false;
 static size_t gen_len(Src &s, size_t maxlen)
 {
+    if (g_long && maxlen >= 40) // the main operand; needles, patterns and replacements keep their short lengths
+        switch (s.weighted({3, 4, 2}))
+        {
+        case 0:
+            return (size_t)s.range(250, 262);
+        case 1:
+            return (size_t)s.range(65, 520);
+        default:
+            return (size_t)s.range(1000, 1100);
+        }
     switch (s.weighted({3, 4, 2}))
     {
     case 0:
@@ -123,6 +135,20 @@ static Str gen_str(Src &s, const char *alpha, size_t asz, size_t maxlen)
 {
     size_t n = gen_len(s, maxlen);
     Str d(n, 'a');
+    if (g_long && maxlen >= 40)
+    {
+        // long operand: a drawn period of 1..24 characters repeated, then up to 6 point mutations — delimiters,
+        // quotes and NULs occur all along the string while the choice sequence stays short
+        size_t plen = (size_t)s.range(1, 24);
+        char pat[24];
+        for (size_t i = 0; i < plen; i++)
+            pat[i] = alpha[s.below(asz)];
+        for (size_t i = 0; i < n; i++)
+            d[i] = pat[i % plen];
+        for (size_t k = (size_t)s.below(7); k > 0 && n; k--)
+            d[s.below(n)] = alpha[s.below(asz)];
+        return d;
+    }
     for (size_t i = 0; i < n; i++)
         d[i] = alpha[s.below(asz)];
     return d;
@@ -1300,6 +1326,36 @@ static unsigned __int128 split_enum_size(int t)
 {
     return count_upto(4, t ? 8 : 6);
 }
+static void t_text_long(Src &s, Case &c)
+{
+    struct G
+    {
+        G() { g_long = true; }
+        ~G() { g_long = false; }
+    } g;
+    c.label("long_text");
+    switch (s.below(7))
+    {
+    case 0:
+        return t_split(s, c);
+    case 1:
+        return t_trim(s, c);
+    case 2:
+        return t_replace(s, c);
+    case 3:
+        return t_memmem(s, c);
+    case 4:
+        return t_cmdargs(s, c);
+    case 5:
+        return t_argvc(s, c);
+    default:
+        return t_creader(s, c);
+    }
+}
+VP_TARGET("text_long", t_text_long,
+          "split / trim / replace / memmem / split_cmdargs / argvc / creader on strings of 250..262, 65..520 or 1000..1100 characters "
+          "(the same alphabets, exactly-sized blocks and oracles as the short-string targets; first choice selects the routine)");
+
 static void t_split_enum(Src &s, Case &c)
 {
     uint64_t k = s.below((uint64_t)split_enum_size(tier()));
